@@ -322,6 +322,16 @@ def invariant_factory(name):
                                'components_ differs from a fresh instance fitted with the same parameters on the same data '
                                '(max abs diff %.3g)' % (np.abs(est.components_ - o['components_']).max()
                                                         if est.components_.shape == o['components_'].shape else np.nan), trg))
+                # the matrix view of the current model (asked of a deep copy, so that the question does not disturb the state)
+                if 'M' not in o:
+                    o['M'] = o['est'].get_mahalanobis_matrix()
+                try:
+                    Mnow = copy.deepcopy(est).get_mahalanobis_matrix()
+                    if Mnow.shape != o['M'].shape or not np.array_equal(Mnow, o['M']):
+                        v.append(V(site, 'history_dependent_matrix', 'get_mahalanobis_matrix() differs from that of a fresh instance fitted with the '
+                                   'same parameters on the same data (shape %s vs %s)' % (Mnow.shape, o['M'].shape), trg))
+                except Exception as e_:
+                    v.append(V(site, 'raises', 'get_mahalanobis_matrix raised %s' % type(e_).__name__, trg))
                 if getattr(est, 'n_features_in_', None) != o['n_features_in_']:
                     v.append(V(site, 'n_features_in_', 'n_features_in_=%r, fresh instance has %r'
                                % (getattr(est, 'n_features_in_', None), o['n_features_in_']), trg))
